@@ -123,6 +123,10 @@ class C18(Prop):
             else:
                 a = [E(rng.sample(keys, rng.randint(1, len(keys))))]
             steps.append({"t": "call", "m": m, "a": a, "k": k})
+            if rng.random() < 0.03:
+                # connections are recycled (close() in a forked child, a periodic reconnect): the caches reconnect
+                # on their next use and everything goes on as before
+                steps.append({"t": "call", "m": "close", "a": [], "k": {}})
             if nc > 1 and rng.random() < 0.03:
                 # the application changes the public `caches` list: a newer cache is put in front, the old
                 # primary retired, the order reversed
@@ -224,6 +228,10 @@ class C18(Prop):
             nc = len(order)
             args, kwargs = res.extra["args"][rec.step]
             m = rec.method
+            if m == "close":
+                if rec.outcome == "raise":
+                    out.append(viol("close-raised", rec, exc=type(rec.exc).__name__))
+                continue
             # servers visited, in order (first socket event per server)
             visited = []
             for ev in w.events[rec.ev0:rec.ev1]:
